@@ -59,10 +59,11 @@ class Net:
     nexus.addListenerByName('ErrorIn', lambda e: self.errors.append(e))
     self.pump()
 
-  def pump(self):
+  def pump(self, hold=False):
+    """hold=True: a slow control channel - the switch's messages reach the controller and are processed, the controller's answers stay queued"""
     for _ in range(50):
       moved = False
-      if self.sock.sent:
+      if self.sock.sent and not hold:
         chunks = list(self.sock.sent); del self.sock.sent[:]
         for ch in chunks:
           self.w._push_receive_data(ch); moved = True
@@ -146,6 +147,36 @@ def h_frames(ctx, nframes, buffers, sweep, pad=0, script=None):
   ctx.witness('done')
 
 
+def h_delayed(ctx, buffers, nheld):
+  """Several packet-ins outstanding at once (a control channel slower than the data plane): three hosts are learned in lock step, then
+  `nheld` frames of different conversations miss the table back to back before any answer of the controller reaches the switch; the answers
+  then arrive in order.  Each frame must still be delivered exactly like the bridge decides, each to its own destination, and no buffer may
+  stay occupied (a buffer id names one stored packet until it is used)."""
+  net = Net(ctx, buffers)
+  HOSTS = {'A': b'\x02\x00\x00\x00\x00\x0a', 'B': b'\x02\x00\x00\x00\x00\x0b', 'C': b'\x02\x00\x00\x00\x00\x0c', '*': b'\xff' * 6}
+  port = {h: ctx.int('port' + h, 1, NPORTS) for h in 'ABC'}
+  def frame(i, s, d): return bytes(HOSTS[d] + HOSTS[s] + bytes([0x08, 0x01, i, 0xaa, 0xbb, 0xcc]))
+  for i, (s, d) in enumerate([('A', '*'), ('B', 'A'), ('C', 'A')]):
+    net.sw.rx_packet(net.pkt.ethernet(frame(i, s, d)), int(port[s])); net.pump()
+  del net.outs[:]
+  held = [('A', 'B'), ('A', 'C'), ('B', 'C')][:nheld]
+  raws = []
+  for i, (s, d) in enumerate(held):
+    raw = frame(10 + i, s, d); raws.append(raw)
+    net.sw.rx_packet(net.pkt.ethernet(raw), int(port[s])); net.pump(hold=True)
+  ctx.check('nothing is forwarded before the controller has answered', net.outs == [])
+  if buffers >= nheld: ctx.check('every outstanding packet-in holds its own buffer', sum(1 for x in net.sw._packet_buffer if x is not None) == nheld)
+  net.pump()
+  for raw, (s, d) in zip(raws, held):
+    got = [p for p, b in net.outs if bytes(b) == raw]
+    exp = [int(port[d])] if int(port[d]) != int(port[s]) else []
+    ctx.check('held frame %s->%s is delivered exactly where %s was seen' % (s, d, d), got == exp)
+  ctx.check('nothing else is emitted', all(any(bytes(b) == r for r in raws) for p, b in net.outs))
+  ctx.check('no OpenFlow error was raised', not net.errors)
+  ctx.check('no packet buffer left occupied', all(x is None for x in net.sw._packet_buffer))
+  ctx.witness('done')
+
+
 def obligations(tier):
   thorough = tier != 'quick'
   cases = [dict(nframes=1, buffers=0, sweep=False), dict(nframes=2, buffers=0, sweep=False), dict(nframes=2, buffers=2, sweep=False),
@@ -158,5 +189,8 @@ def obligations(tier):
   if thorough: cases += [dict(nframes=4, buffers=0, sweep=True, script=['A*', 'BA', 'BA', 'AB']), dict(nframes=5, buffers=0, sweep=True, script=['A*', 'BA', 'AB', 'B*', 'AB']), dict(nframes=3, buffers=2, sweep=False), dict(nframes=3, buffers=0, sweep=False), dict(nframes=3, buffers=2, sweep=True)]
   BOUNDS[tier] = dict(switches=1, ports=NPORTS, frames=[c['nframes'] for c in cases], macs="48-bit symbolic source/destination per frame (all aliasing patterns)",
                       ingress="symbolic port", gaps="0..45 s symbolic with an expiry sweep before each frame (sweep cases)", buffering=sorted({c['buffers'] for c in cases}), frame_lengths=[18, 168], miss_send_len=128)
-  return [Obligation('O1_frames', h_frames, cases, witnesses=('done', 'flood', 'unicast-known', 'filtered', 'cached-flow'), max_decisions=40000,
+  dl = [dict(buffers=b, nheld=k) for b in (0, 1, 2, 3) for k in ((2, 3) if thorough else (2,))]
+  return [Obligation('O2_outstanding', h_delayed, dl, witnesses=('done',), max_decisions=40000,
+                     desc='several packet-ins outstanding at once (slow control channel), answered in order: each frame to its own destination, buffers released'),
+          Obligation('O1_frames', h_frames, cases, witnesses=('done', 'flood', 'unicast-known', 'filtered', 'cached-flow'), max_decisions=40000,
                      desc='frames emitted per port == ideal learning bridge; buffers never leak')]
